@@ -12,6 +12,12 @@
                                     convert_condition_{and,or,not}, compare_precedence
      sigma/conditions.py            _parse_condition_string (lru_cache) + deep copy in parse()
      sigma/modifiers.py             SigmaModifier._type_hint_cache
+     sigma/processing/pipeline.py   vars: ProcessingPipeline.__add__ builds a NEW dict {**self.vars, **other.vars};
+     sigma/conversion/base.py       init_processing_pipeline updates the vars of the new pipeline object in
+                                    place with backend_<option>, backend, output_format.  The dict belongs to
+                                    the new pipeline object alone, so dict identity = pipeline object identity
+                                    (w_pvars is keyed by pipeline object); the dicts of the operands are never
+                                    written.  Readers (value_placeholders) go through the item's owner link.
      sigma/processing/transformations/external.py  ExternalSourceBaseTransformation._values_cache /
                                     _get_values (cache written only after fetch, parse and filter succeeded)
    Object identity that matters is explicit: every processing item object has an id (where it was
@@ -60,8 +66,10 @@ Record rule := {
 
 (* ---------- pipelines ---------- *)
 Inductive rcond := RAlways | RProduct (p : N) | RState (k v : str).
-Inductive trans := TSetState (k v : str) | TFieldMap (m : list (str * str)) | TFail | TFile (d : N).
-   (* TFile d: file_placeholders transformation reading external source d *)
+Inductive trans := TSetState (k v : str) | TFieldMap (m : list (str * str)) | TFail | TFile (d : N) | TVars.
+   (* TFile d: file_placeholders transformation reading external source d;
+      TVars: value_placeholders, resolving every placeholder from the pipeline variables *)
+Definition vars := list (str * list str).    (* pipeline variables: name -> value list (a scalar is one value) *)
 Record item := { i_id : str; i_cond : rcond; i_tr : trans }.
    (* identifier: given, or generated from a hash of the definition in __post_init__ - never empty *)
 
@@ -143,13 +151,25 @@ Definition expand_rule (vs : list str) (r : rule) : rule :=
      r_dets := map (fun nd => (fst nd, map (expand_item vs) (snd nd))) (r_dets r); r_conds := r_conds r;
      r_fields := r_fields r |}.
 
+(* ValueListPlaceholderTransformation: every placeholder is looked up in the variables of the pipeline
+   the item's owner link points to; an unknown name raises SigmaValueError *)
+Definition expand_item_vars (pv : vars) (d : ditem) : ditem :=
+  if is_ph d then {| di_field := di_field d; di_text := []; di_kind := VStrs (getd [] (di_text d) pv) |} else d.
+Definition ph_missing (pv : vars) (r : rule) : bool :=
+  existsb (fun nd => existsb (fun d => is_ph d && match lookup (di_text d) pv with None => true | Some _ => false end) (snd nd)) (r_dets r).
+Definition expand_rule_vars (pv : vars) (r : rule) : rule :=
+  {| r_bad := r_bad r; r_mods := r_mods r; r_product := r_product r;
+     r_dets := map (fun nd => (fst nd, map (expand_item_vars pv) (snd nd))) (r_dets r); r_conds := r_conds r;
+     r_fields := r_fields r |}.
+
 (* one processing item on one rule: what it reads from / writes to the pipeline object its owner
    link points to, and what it does to the rule.  vals: what _get_values() of this transformation
-   object returns or raises (only looked at by wants_values items) *)
+   object returns or raises (only looked at by wants_values items); pv: the variables of the pipeline
+   object the owner link points to *)
 Record istep := { is_match : bool; is_upd : pstate -> pstate; is_res : rule + N }.
 Definition wants_values (rd : pstate) (r : rule) (it : item) : bool :=
   eval_rcond rd r (i_cond it) && match i_tr it with TFile _ => rule_has_ph r | _ => false end.
-Definition item_step (rd : pstate) (r : rule) (it : item) (vals : outcome (list str)) : istep :=
+Definition item_step (rd : pstate) (pv : vars) (r : rule) (it : item) (vals : outcome (list str)) : istep :=
   if eval_rcond rd r (i_cond it) then
     match i_tr it with
     | TSetState k v => {| is_match := true; is_upd := set_state k v; is_res := inl r |}
@@ -167,6 +187,9 @@ Definition item_step (rd : pstate) (r : rule) (it : item) (vals : outcome (list 
                        | Crash e => inr e
                        end
                      else inl r |}
+    | TVars =>
+        {| is_match := true; is_upd := fun ps => ps;
+           is_res := if ph_missing pv r then inr E_Value else inl (expand_rule_vars pv r) |}
     end
   else {| is_match := false; is_upd := fun ps => ps; is_res := inl r |}.
 
@@ -188,6 +211,9 @@ Record env := {
   e_bk : N -> list item;               (* class-level backend pipeline *)
   e_fmt : N -> N -> list item;         (* class-level output format pipelines *)
   e_user : N -> list item;             (* user pipeline objects (one definition each) *)
+  e_bkvars : N -> vars;                (* `vars` of these pipeline definitions *)
+  e_fmtvars : N -> N -> vars;
+  e_uservars : N -> vars;
   e_parse : str -> option ptree;       (* what the condition grammar yields (C02); None: ParseException *)
   e_src : N -> outcome (list str);     (* external source d, fetched + parsed + filtered now: values, or the
                                           error of the stage that fails (security / fetch / parse) *)
@@ -209,7 +235,9 @@ Definition t_re (t : tpls) : N := snd t.
 Definition tpl0 : tpls := (0, 2, 4).
 Definition tpl_neg : tpls := (1, 3, 5).  (* not_eq_expression, not_startswith_expression, not_re_expression = None *)
 
-Record backend := { b_cls : N; b_user : option N; b_collect : bool; b_last : option (nat * N) }.
+Record backend := { b_cls : N; b_user : option N; b_collect : bool; b_opts : list (str * str);
+                    b_last : option (nat * N) }.
+   (* b_opts: backend options given to the constructor *)
    (* b_last: number of the last_processing_pipeline object and the format it was built for *)
 
 Record world := {
@@ -220,30 +248,33 @@ Record world := {
   w_owner : iid -> option nat;         (* item._pipeline (None: a pipeline that is never applied) *)
   w_ps : nat -> pstate;                (* per-rule fields of each last_processing_pipeline object *)
   w_vc : iid -> option (list str);     (* _values_cache of each external-source transformation object *)
+  w_pvars : nat -> vars;               (* vars dict of each last_processing_pipeline object *)
   w_next : nat;
   w_bks : list backend }.
 
 Definition init : world :=
   {| w_cache := []; w_hits := 0; w_miss := 0; w_hints := []; w_tpl := fun _ => tpl0;
-     w_owner := fun _ => None; w_ps := fun _ => ps0; w_vc := fun _ => None; w_next := 0%nat; w_bks := [] |}.
+     w_owner := fun _ => None; w_ps := fun _ => ps0; w_vc := fun _ => None; w_pvars := fun _ => []; w_next := 0%nat; w_bks := [] |}.
 
 Definition set_ps (w : world) (p : nat) (v : pstate) : world :=
   {| w_cache := w_cache w; w_hits := w_hits w; w_miss := w_miss w; w_hints := w_hints w;
      w_tpl := w_tpl w; w_owner := w_owner w;
-     w_ps := fun q => if Nat.eqb q p then v else w_ps w q; w_vc := w_vc w; w_next := w_next w; w_bks := w_bks w |}.
+     w_ps := fun q => if Nat.eqb q p then v else w_ps w q; w_vc := w_vc w; w_pvars := w_pvars w; w_next := w_next w; w_bks := w_bks w |}.
 Definition set_tplw (w : world) (tp : N -> tpls) : world :=
   {| w_cache := w_cache w; w_hits := w_hits w; w_miss := w_miss w; w_hints := w_hints w;
-     w_tpl := tp; w_owner := w_owner w; w_ps := w_ps w; w_vc := w_vc w; w_next := w_next w; w_bks := w_bks w |}.
+     w_tpl := tp; w_owner := w_owner w; w_ps := w_ps w; w_vc := w_vc w; w_pvars := w_pvars w; w_next := w_next w; w_bks := w_bks w |}.
 Definition set_bks (w : world) (l : list backend) : world :=
   {| w_cache := w_cache w; w_hits := w_hits w; w_miss := w_miss w; w_hints := w_hints w;
-     w_tpl := w_tpl w; w_owner := w_owner w; w_ps := w_ps w; w_vc := w_vc w; w_next := w_next w; w_bks := l |}.
+     w_tpl := w_tpl w; w_owner := w_owner w; w_ps := w_ps w; w_vc := w_vc w; w_pvars := w_pvars w; w_next := w_next w; w_bks := l |}.
 Definition set_hints (w : world) (l : list N) : world :=
   {| w_cache := w_cache w; w_hits := w_hits w; w_miss := w_miss w; w_hints := l;
-     w_tpl := w_tpl w; w_owner := w_owner w; w_ps := w_ps w; w_vc := w_vc w; w_next := w_next w; w_bks := w_bks w |}.
+     w_tpl := w_tpl w; w_owner := w_owner w; w_ps := w_ps w; w_vc := w_vc w; w_pvars := w_pvars w; w_next := w_next w; w_bks := w_bks w |}.
 Definition set_cache (w : world) (c : list (str * ptree)) (h m : N) : world :=
   {| w_cache := c; w_hits := h; w_miss := m; w_hints := w_hints w;
-     w_tpl := w_tpl w; w_owner := w_owner w; w_ps := w_ps w; w_vc := w_vc w; w_next := w_next w; w_bks := w_bks w |}.
+     w_tpl := w_tpl w; w_owner := w_owner w; w_ps := w_ps w; w_vc := w_vc w; w_pvars := w_pvars w; w_next := w_next w; w_bks := w_bks w |}.
 
+Definition rd_vars (w : world) (o : option nat) : vars :=
+  match o with Some p => w_pvars w p | None => [] end.
 Definition rd_owner (w : world) (o : option nat) : pstate :=
   match o with Some p => w_ps w p | None => ps0 end.
 Definition wr_owner (w : world) (o : option nat) (f : pstate -> pstate) : world :=
@@ -252,7 +283,7 @@ Definition wr_owner (w : world) (o : option nat) (f : pstate -> pstate) : world 
 Definition set_vc (w : world) (i : iid) (v : list str) : world :=
   {| w_cache := w_cache w; w_hits := w_hits w; w_miss := w_miss w; w_hints := w_hints w;
      w_tpl := w_tpl w; w_owner := w_owner w; w_ps := w_ps w;
-     w_vc := fun j => if iid_eqb j i then Some v else w_vc w j; w_next := w_next w; w_bks := w_bks w |}.
+     w_vc := fun j => if iid_eqb j i then Some v else w_vc w j; w_pvars := w_pvars w; w_next := w_next w; w_bks := w_bks w |}.
 (* ExternalSourceBaseTransformation._get_values of transformation object i reading source d: the cache is
    consulted first; it is written only when security check, fetch, parse and filter all succeeded *)
 Definition get_values (E : env) (w : world) (i : iid) (d : N) : world * outcome (list str) :=
@@ -282,7 +313,7 @@ Fixpoint apply_items (E : env) (w : world) (L : nat) (r : rule) (its : list (iid
       let o := w_owner w i in
       let rd := rd_owner w o in
       let '(w0, vals) := fetch_vals E w i it rd r in
-      let st := item_step rd r it vals in
+      let st := item_step rd (rd_vars w o) r it vals in
       let w1 := wr_owner w0 o (is_upd st) in
       match is_res st with
       | inr e => (w1, inr e)
@@ -297,6 +328,16 @@ Fixpoint set_nth {A} (n : nat) (x : A) (l : list A) : list A :=
   | _ :: r, O => x :: r
   | y :: r, S k => y :: set_nth k x r
   end.
+Definition fmt_name (f : N) : str := match f with 0 => lit "default" | 1 => lit "test" | _ => lit "state" end.
+Definition backend_name : str := lit "Test backend".
+Definition merge_vars (a b : vars) : vars := fold_left (fun m kv => set_assoc (fst kv) (snd kv) m) b a.
+(* {**backend_pp.vars, **user.vars, **format_pp.vars}, then .update(backend_<option>), ["backend"], ["output_format"] *)
+Definition init_vars (E : env) (cls : N) (user : option N) (opts : list (str * str)) (fmt : N) : vars :=
+  let base := merge_vars (merge_vars (e_bkvars E cls) (match user with Some o => e_uservars E o | None => [] end))
+                         (e_fmtvars E cls fmt) in
+  set_assoc (lit "output_format") [fmt_name fmt]
+    (set_assoc (lit "backend") [backend_name]
+       (fold_left (fun m kv => set_assoc (lit "backend_" ++ fst kv) [snd kv] m) opts base)).
 Definition init_pipeline (E : env) (w : world) (b : nat) (bk : backend) (fmt : N) : world :=
   let L := w_next w in
   let ids := map fst (pipe_pairs E (b_cls bk) (b_user bk) fmt) in
@@ -305,8 +346,9 @@ Definition init_pipeline (E : env) (w : world) (b : nat) (bk : backend) (fmt : N
      w_owner := fun i => if existsb (iid_eqb i) ids then Some L else w_owner w i;
      w_ps := fun q => if Nat.eqb q L then ps0 else w_ps w q;
      w_vc := w_vc w;
+     w_pvars := fun q => if Nat.eqb q L then init_vars E (b_cls bk) (b_user bk) (b_opts bk) fmt else w_pvars w q;
      w_next := S L;
-     w_bks := set_nth b {| b_cls := b_cls bk; b_user := b_user bk; b_collect := b_collect bk;
+     w_bks := set_nth b {| b_cls := b_cls bk; b_user := b_user bk; b_collect := b_collect bk; b_opts := b_opts bk;
                            b_last := Some (L, fmt) |} (w_bks w) |}.
 
 (* ---------- conditions ---------- *)
@@ -330,12 +372,18 @@ Definition omap {A B} (f : A -> outcome B) : list A -> outcome (list B) :=
     | [] => Ok []
     | x :: r => obind (f x) (fun y => obind (go r) (fun ys => Ok (y :: ys)))
     end.
+(* a replacement value is parsed as a Sigma string: a trailing * is a wildcard *)
+Definition val_leaf (f v : str) : ditem :=
+  match rev v with
+  | 42 :: r => {| di_field := f; di_text := rev r; di_kind := VStar |}
+  | _ => {| di_field := f; di_text := v; di_kind := VStr |}
+  end.
 (* SigmaDetectionItem.postprocess: no value -> field is null, one value -> that value, more -> OR *)
 Definition leaf_of (d : ditem) : ctree :=
   match di_kind d with
   | VStrs [] => CLeaf {| di_field := di_field d; di_text := []; di_kind := VNull |}
-  | VStrs [v] => CLeaf {| di_field := di_field d; di_text := v; di_kind := VStr |}
-  | VStrs vs => COr (map (fun v => CLeaf {| di_field := di_field d; di_text := v; di_kind := VStr |}) vs)
+  | VStrs [v] => CLeaf (val_leaf (di_field d) v)
+  | VStrs vs => COr (map (fun v => CLeaf (val_leaf (di_field d) v)) vs)
   | _ => CLeaf d
   end.
 (* postprocess(): identifiers are replaced by the rule's detections *)
@@ -478,7 +526,7 @@ Definition conv_rule_raw (E : env) (w : world) (b : nat) (bk : backend) (fmt : N
 (* ---------- operations ---------- *)
 Inductive op :=
 | OLoad (r : rule)
-| ONew (cls : N) (user : option N) (collect : bool)
+| ONew (cls : N) (user : option N) (collect : bool) (opts : list (str * str))
 | OInit (b : nat) (fmt : N)
 | OConvColl (b : nat) (rs : list rule) (fmt : N)
 | OConvRule (b : nat) (r : rule) (fmt : N).
@@ -531,8 +579,8 @@ Definition step (E : env) (w : world) (o : op) : world * out :=
       let w1 := load w r in
       (w1, mk_out E w1 {| o_res := match r_bad r with Some t => SigmaErr t | None => Ok [] end;
                         o_errs := []; o_snap := None |})
-  | ONew cls user collect =>
-      let w1 := set_bks w (w_bks w ++ [{| b_cls := cls; b_user := user; b_collect := collect; b_last := None |}]) in
+  | ONew cls user collect opts =>
+      let w1 := set_bks w (w_bks w ++ [{| b_cls := cls; b_user := user; b_collect := collect; b_opts := opts; b_last := None |}]) in
       (w1, mk_out E w1 (ok_obs None))
   | OInit b fmt =>
       match nth_error (w_bks w) b with
